@@ -33,6 +33,8 @@ CONSTANTS K,       \* price lattice
           TF,      \* trading timeframe in minutes (multiple of Chunk; > Chunk models a smaller data route)
           NMin,    \* minutes in the series
           Gaps,    \* TRUE: any valid candle each minute; FALSE: every open equals the previous close
+          PartialChunkRaises, \* FALSE = the code since f8ad570d; TRUE = the former defect: a trailing chunk shorter than Chunk
+                   \*       made the fast simulator raise ValueError
           Spacing  \* TRUE: the quantifier of C12 is enforced - "exits spaced wider than a trading candle can move": in no
                    \*       trading window are two different resting-order prices of the normal run inside the window's range;
                    \* FALSE: only the statement's antecedent (<= 1 resting fill per trading window) - the simulators then differ
@@ -71,8 +73,8 @@ Feed ==
              /\ pre' = IF wf > 1 THEN "two-fills"
                        ELSE IF Spacing /\ Cardinality({p \in px : lo <= p /\ p <= hi}) > 1 THEN "spacing"
                        ELSE pre
-             \* quirk (C12 finding): a trailing chunk shorter than Chunk makes generate_candle_from_one_minutes raise
-             /\ IF ChunkLen < Chunk THEN fstat' = "ValueError" /\ sf' = sf ELSE fstat' = fstat /\ sf' = f2
+             \* former defect (C12 finding, fixed): a trailing chunk shorter than Chunk made generate_candle_from_one_minutes raise
+             /\ IF ChunkLen < Chunk /\ PartialChunkRaises THEN fstat' = "ValueError" /\ sf' = sf ELSE fstat' = fstat /\ sf' = f2
              /\ prevC' = raw[ChunkLen].c
              /\ hist' = Append(hist, [k |-> "feed", raw |-> raw])
   /\ m' = m + ChunkLen
